@@ -3,9 +3,9 @@
    uniform_real_distribution<double>, compared with libstdc++ by the K-RNG correspondence).  dr s p = draw number p.
    Every arithmetic; no bound on sizes.
    Only statements; every proof is `exact <lemma>` (proofs live in the files imported below). *)
-From Coq Require Import Arith List Bool ZArith Floats Reals.
+From Coq Require Import Arith List Bool ZArith NArith Floats Reals.
 Import ListNotations.
-From MT Require Import Arith SweepModel InitModel CtrlModel InitProofs RunProofs MainModel InitProofs Mt19937 SeededModel SeedProofs CanonicalRange SeedCorollaries GenParams FloatInst ParamFacts StartRangeProofs.
+From MT Require Import Arith SweepModel InitModel CtrlModel InitProofs RunProofs MainModel InitProofs Mt19937 SeededModel SeedProofs CanonicalRange SeedCorollaries GenParams FloatInst ParamFacts StartRangeProofs GraphModel Layout CliModel CliProofs CliMain CliMainProofs CliAffinityProofs.
 
 (* a realization of the general model with random affinity consumes EXACTLY n = L*K(K+1)/2 + [directed] K*|v_list| + K*|u_list| *)
 (* draws, in this order: affinity, in-memberships (column by column over v_list), out-memberships; rows outside the lists are zero; *)
@@ -71,8 +71,8 @@ Theorem C17_affinity_random_symmetric : forall (num : Type) (A : Arith num) (K L
 Proof. exact init_sym_random_spec. Qed.
 Print Assumptions C17_affinity_random_symmetric.
 
-Theorem C17_pair_position_injective : forall K i j i' j' : nat,
-       i <= j < K -> i' <= j' < K -> InitProofs.pos K i j = InitProofs.pos K i' j' -> i = i' /\ j = j'.
+Theorem C17_pair_position_injective : forall (assort : bool) (K L k k' a a' : nat),
+       k < K -> k' < K -> pos assort K L k a = pos assort K L k' a' -> k = k' /\ a = a'.
 Proof. exact pos_inj. Qed.
 Print Assumptions C17_pair_position_injective.
 
@@ -251,4 +251,82 @@ Theorem C17_random_start_in_unit_interval_assortative : forall (lnf : float -> f
        (forall k a : nat, k < K -> a < L -> in_unit (dget float (ArithF lnf) wt k a)).
 Proof. exact seeded_random_start_in_unit_assortative. Qed.
 Print Assumptions C17_random_start_in_unit_interval_assortative.
+
+(* the front end hands the seed it was given to the library: for every selection without an affinity file, what `cli_main` writes is built from the *)
+(* library's run from the generator seeded with the value of `--s` (the clock only for `--s random` / no `--s`), whatever the other options are *)
+Theorem C17_cli_runs_from_the_given_seed : forall (A : Arith float) (stoi : str -> option Z) (fs : str -> option (list byte)) 
+         (now : Z) (tokenize : list byte -> list (list str)) (is_hash : str -> bool)
+         (pnum : str -> option float) (puint : str -> option nat) (fmt fmt_int : float -> str)
+         (fmt_nat : nat -> str) (fmt_N : N -> str) (fmt_Z : Z -> str) (word : nat -> str)
+         (reason_name : reason -> str) (argv : list str) (c : cli_cfg) (items : list item) 
+         (nl : bool) (sd : Z) (res : result float N),
+       parse_options stoi argv = Some c ->
+       c_wfile c = [] ->
+       fs (c_adj c) = Some (render_file items nl) ->
+       Forall item_ok items ->
+       c_seed c = s_random /\ sd = now \/ c_seed c <> s_random /\ stoi (c_seed c) = Some sd ->
+       let starts := flat_map item_src items in
+       let ends := flat_map item_tgt items in
+       let weights := flat_map item_wts items in
+       let nv := get_num_vertices N N.eqb starts ends in
+       let L := match starts with
+                | [] => 0
+                | _ :: _ => length weights / length starts
+                end in
+       factorize_seeded A N N.eqb N N.to_nat (fun (_ _ : nat) (x : float) => x) 
+         (c_directed c) (c_assort c) false starts ends weights (c_r c) (c_maxit c) 
+         (c_nconv c) nv (c_K c) (zeros float A nv (c_K c))
+         (if c_directed c then zeros float A nv (c_K c) else [])
+         (repeat (zero A) (if c_assort c then c_K c * L else c_K c * c_K c * L)) sd = 
+       Ok float N res ->
+       let best := max_L2 float A (map snd (r_rep float N res)) in
+       let labels := map fmt_N (r_labels float N res) in
+       let head := header fmt_int fmt_nat word best (length (r_rep float N res)) in
+       cli_main A stoi fs now tokenize is_hash pnum puint fmt fmt_int fmt_nat fmt_N fmt_Z word
+         reason_name argv =
+       CliOk (c_out c)
+         ([(f_info, info_rows A fmt fmt_nat fmt_Z word reason_name sd (r_rep float N res));
+           (f_w, head :: affinity_rows float A str fmt fmt_nat word (r_aff float N res) (c_K c) L);
+           (f_u, head :: membership_rows float A str fmt word labels (r_u float N res) nv (c_K c))] ++
+          (if c_directed c
+           then
+            [(f_v, head :: membership_rows float A str fmt word labels (r_v float N res) nv (c_K c))]
+           else [])).
+Proof. exact cli_main_is_library_files. Qed.
+Print Assumptions C17_cli_runs_from_the_given_seed.
+
+(* the same for the four selections with `--w` *)
+Theorem C17_cli_runs_from_the_given_seed_with_affinity_file : forall (A : Arith float) (stoi : str -> option Z) (fs : str -> option (list byte)) 
+         (now : Z) (tokenize : list byte -> list (list str)) (is_hash : str -> bool)
+         (pnum : str -> option float) (puint : str -> option nat) (fmt fmt_int : float -> str)
+         (fmt_nat : nat -> str) (fmt_N : N -> str) (fmt_Z : Z -> str) (word : nat -> str)
+         (reason_name : reason -> str) (argv : list str) (c : cli_cfg) (items : list item) 
+         (nl : bool) (wb : list byte) (w : list float) (sd : Z) (res : result float N),
+       parse_options stoi argv = Some c ->
+       c_wfile c <> [] ->
+       fs (c_adj c) = Some (render_file items nl) ->
+       Forall item_ok items ->
+       fs (c_wfile c) = Some wb ->
+       let starts := flat_map item_src items in
+       let ends := flat_map item_tgt items in
+       let weights := flat_map item_wts items in
+       let nv := get_num_vertices N N.eqb starts ends in
+       let L := match starts with
+                | [] => 0
+                | _ :: _ => length weights / length starts
+                end in
+       let K := c_K c in
+       let size := if c_assort c then K * L else K * K * L in
+       read_affinity float str is_hash pnum puint (c_assort c) (tokenize wb) (repeat (zero A) size) K =
+       AffOk float w ->
+       seed_of stoi now (c_seed c) = Some sd ->
+       factorize_seeded A N N.eqb N N.to_nat (fun (_ _ : nat) (x : float) => x) 
+         (c_directed c) (c_assort c) true starts ends weights (c_r c) (c_maxit c) 
+         (c_nconv c) nv K (zeros float A nv K) (if c_directed c then zeros float A nv K else []) w sd =
+       Ok float N res ->
+       cli_main A stoi fs now tokenize is_hash pnum puint fmt fmt_int fmt_nat fmt_N fmt_Z word
+         reason_name argv =
+       CliOk (c_out c) (result_files A fmt fmt_int fmt_nat fmt_N fmt_Z word reason_name c nv L sd res).
+Proof. exact cli_main_with_affinity_file. Qed.
+Print Assumptions C17_cli_runs_from_the_given_seed_with_affinity_file.
 
